@@ -95,7 +95,7 @@ def g_hash_gate(C, rep, rid):
                 why = "the compared invoice (%s) is not the one stored in the TrampolineInfo (%s)" % (show(_invoice_of(ih))[:50], show(inv)[:50])
                 continue
             # nothing lossy on either side: no truncation / slicing of the hashes
-            lossy = [x for side in sides for x in _walk_until_hash(side) if x[0] == "call" and (x[1] in ("std::ops::Index::index",) or x[1].endswith("::first") or x[1].endswith("::get") or "split" in x[1] or x[1].endswith("::len") or x[1].endswith("::last"))]
+            lossy = _lossy(sides)
             if lossy:
                 why = "the comparison does not cover the whole hash (%s)" % lossy[0][1]
                 continue
@@ -133,12 +133,28 @@ def _handler_level_gate(C):
                 return any(x[0] == "call" and x[1] == "lightning_invoice::Bolt11Invoice::payment_hash" and any(y[0] == "call" and y[4].t.get("rty") == "htlc_manager::HtlcCheckResult" for y in walk(x)) for x in walk(e))
             a, c2 = sides
             if (hh(a) and ih(c2) and not ih(a) and not hh(c2)) or (hh(c2) and ih(a) and not ih(c2) and not hh(a)):
-                lossy = [x for side in sides for x in _walk_until_hash(side) if x[0] == "call" and (x[1] in ("std::ops::Index::index",) or x[1].endswith("::first") or x[1].endswith("::get") or "split" in x[1] or x[1].endswith("::len") or x[1].endswith("::last"))]
+                lossy = _lossy(sides)
                 if not lossy:
                     ok = True
         if not ok:
             return False, ""
     return True, "equality of the two hashes dominates the table insertion and the registration in the handler"
+
+
+def _lossy(sides):
+    """operations between the hash sources and the comparison that look at only part of the hash (`x[..]` is the whole)"""
+    out = []
+    for side in sides:
+        for x in _walk_until_hash(side):
+            if x[0] != "call":
+                continue
+            if x[1] == "std::ops::Index::index":
+                if len(x[2]) > 1 and "RangeFull" in show(x[2][1]):
+                    continue
+                out.append(x)
+            elif x[1].endswith("::first") or x[1].endswith("::get") or "split" in x[1] or x[1].endswith("::len") or x[1].endswith("::last"):
+                out.append(x)
+    return out
 
 
 def _walk_until_hash(e, _d=0):
@@ -264,18 +280,12 @@ def s_signature_gate(C, rep, rid):
         d = dict(zip(s["rv"]["fields"], s["rv"]["ops"]))
         inv = strip(X.operand(b, d["invoice"]))
         ok = False
-        for cnd, truth in lib.dominating_conditions(b, bi):
-            if cnd.kind == "call" and cnd.call.name in ("std::result::Result::is_err", "std::result::Result::is_ok"):
-                src = strip(X.operand(b, cnd.call.args[0]))
-                want = (cnd.call.name.endswith("is_ok") and truth) or (cnd.call.name.endswith("is_err") and not truth)
-                for a in alts(src):
-                    if a[0] == "call" and a[1] == "lightning_invoice::Bolt11Invoice::check_signature" and want and show(a[2][0]) == show(inv):
-                        ok = True
-            if cnd.kind == "enum" and truth == ("Ok",):
-                src = strip(X.place(b, cnd.place))
-                for a in alts(src):
-                    if a[0] == "call" and a[1] == "lightning_invoice::Bolt11Invoice::check_signature" and show(a[2][0]) == show(inv):
-                        ok = True
+        for src, truth, _c in lib.variant_facts(b, X, bi):
+            if truth != ("Ok",):
+                continue
+            for a in alts(src):
+                if a[0] == "call" and a[1] == "lightning_invoice::Bolt11Invoice::check_signature" and a[2] and show(a[2][0]) == show(inv):
+                    ok = True
         rep.ob(rid, ok, fn, "signature gate dominates construction", where=loc(s["sp"]), how="check_signature() == Ok on the stored invoice",
                detail="" if ok else "a TrampolineInfo can be built from an invoice whose signature was not verified")
         pe = strip(X.operand(b, d["payee"]))
@@ -303,40 +313,42 @@ def a_amount_table(C, rep, rid):
         fn = F.root_of(b)
         d = dict(zip(s["rv"]["fields"], s["rv"]["ops"]))
         op = d.get("amount_msat")
-        ro = lib.root_operand(b, op)
-        if ro["k"] not in ("copy", "move") or ro["pl"]["p"]:
+        if op is None:
             rep.ob(rid, False, fn, "amount local", where=loc(s["sp"]), detail="cannot resolve the amount's definitions")
             continue
-        l = ro["pl"]["l"]
-        defs = [dd for dd in b.defs.get(l, []) if not dd[2]]
+        # every assignment that can produce the amount (through moves, `?`, Ok(..) payloads and local pure helpers),
+        # each with the Option/Result arms and comparisons that hold where it is made
+        defs = mm.def_alternatives(F, X, b, op)
+        bfile = b.span.get("f")
+
+        def other_file(n, bfile=bfile):
+            return F.by_cdef.get(n) is None or F.by_cdef[n].span.get("f") != bfile or n.startswith("<")
         rep.anchor(rid, "definitions of the amount to deliver", len(defs), 2, fn=fn)
-        inv_amt_call = [c for c in b.calls if c.name == "lightning_invoice::Bolt11Invoice::amount_milli_satoshis"]
+        inv_amt_call = [c for g in [b] + _pure_callee_bodies(F, b) for c in g.calls if c.name == "lightning_invoice::Bolt11Invoice::amount_milli_satoshis"]
         rep.anchor(rid, "invoice.amount_milli_satoshis()", len(inv_amt_call), 1, fn=fn)
         seen_cases = set()
-        for dd in defs:
-            dbb = dd[0]
-            if dd[3] != "rv":
-                rep.ob(rid, False, fn, "amount definition shape", where=loc(dd[5]), detail="amount defined by a call")
-                continue
-            e = strip(X.rvalue(b, dd[4], (b.cdef, dbb, ""), 0))
+        for e, vfacts, cfacts, wh in defs:
+            e = strip(mm.inline_pure(F, X, e, keep=other_file))
             is_inv = all(a[0] == "field" and a[3] == "Some" and a[4][0] == "call" and a[4][1] == "lightning_invoice::Bolt11Invoice::amount_milli_satoshis" for a in alts(e))
             is_tlv = all(_is_tlv_amount(a) for a in alts(e))
-            conds = lib.dominating_conditions(b, dbb)
             inv_state = tlv_state = None
             eqok = None
-            for cnd, truth in conds:
-                if cnd.kind == "enum":
-                    pe = strip(X.place(b, cnd.place))
-                    if all(a[0] == "call" and a[1] == "lightning_invoice::Bolt11Invoice::amount_milli_satoshis" for a in alts(pe)):
-                        inv_state = truth
-                    elif any(_mentions_tlv_amount(a) for a in alts(pe)):
-                        tlv_state = truth
-                if cnd.kind == "cmp" and cnd.op in ("Eq", "Ne"):
-                    ea, eb = strip(X.operand(b, cnd.a)), strip(X.operand(b, cnd.b))
-                    pair = (_is_inv_amount(ea) and all(_is_tlv_amount(a) for a in alts(eb))) or (_is_inv_amount(eb) and all(_is_tlv_amount(a) for a in alts(ea)))
-                    if pair:
-                        eqok = truth if cnd.op == "Eq" else not truth
-            where = loc(dd[5])
+            for pe, truth in vfacts:
+                pe = strip(mm.inline_pure(F, X, pe, keep=other_file))
+                if all(a[0] == "call" and a[1] == "lightning_invoice::Bolt11Invoice::amount_milli_satoshis" for a in alts(pe)):
+                    inv_state = truth
+                elif any(_mentions_tlv_amount(a) for a in alts(pe)) and truth in (("Some",), ("None",)) and not any(_is_get_result(a) for a in alts(pe)):
+                    tlv_state = truth
+            for ea, cop, eb in cfacts:
+                if cop not in ("Eq", "Ne"):
+                    continue
+                ea, eb = strip(mm.inline_pure(F, X, ea, keep=other_file)), strip(mm.inline_pure(F, X, eb, keep=other_file))
+                pair = (_is_inv_amount(ea) and all(_is_tlv_amount(a) for a in alts(eb))) or (_is_inv_amount(eb) and all(_is_tlv_amount(a) for a in alts(ea)))
+                if pair:
+                    eqok = cop == "Eq"
+            where = wh[0] + ":bb%s" % wh[1] if wh else loc(s["sp"])
+            if wh and wh[0] in F.by_cdef and wh[1] is not None and wh[1] < len(F.by_cdef[wh[0]].blocks):
+                where = loc(F.by_cdef[wh[0]].term(wh[1])["sp"])
             if is_inv:
                 ok = inv_state == ("Some",) and (tlv_state == ("None",) or (tlv_state == ("Some",) and eqok is True))
                 case = "inv+tlv-equal" if tlv_state == ("Some",) else "inv-only"
@@ -352,48 +364,83 @@ def a_amount_table(C, rep, rid):
                 rep.ob(rid, False, fn, "amount source", where=where, detail="the amount to deliver can be %s" % show(e)[:120])
         for case in ("inv+tlv-equal", "inv-only", "tlv-only"):
             rep.ob(rid, case in seen_cases, fn, "case %s handled" % case, where=loc(s["sp"]), how="definition present", detail="" if case in seen_cases else "no definition of the amount for case %s" % case, nontrivial=False)
-        # tu64 Err maps to None
-        tu = [c for c in b.calls if c.name == "tlv::ProtoBuf::get_tu64"]
-        rep.anchor(rid, "get_tu64 on the amount record", len(tu), 1, fn=fn)
-        for c in tu:
-            # the decoder must see the whole field: nothing but type conversions between get(33003).value and get_tu64
-            recv = strip(X.operand(b, c.args[0]))
-            bad = [y for y in walk(recv) if y[0] == "call" and y[1] not in ("tlv::SerializedTlvStream::get", "tlv::FromBytes::from_bytes", "bytes::Bytes::from", "bytes::Bytes::copy_from_slice", "std::vec::Vec::as_slice", "bytes::Bytes::from_static")
-                   and not y[1].startswith("tlv::") and y[1] not in ("std::convert::TryFrom::try_from", "std::convert::TryInto::try_into")]
-            rep.ob(rid, not bad, fn, "the whole amount field is decoded", where=c.loc, how=show(recv)[:90],
-                   detail="" if not bad else "the amount field is passed through %s before decoding: a field longer than 8 bytes is not rejected as malformed" % bad[0][1])
-            # every `None` of the optional amount comes from 'record absent' or 'field malformed'
-            outs = [l for l in b.locals_of_type(r"^std::option::Option<u64>$")]
-            for l in outs:
-                defs = [dd for dd in b.defs.get(l, []) if not dd[2] and dd[3] == "rv" and dd[4]["k"] == "agg"]
-                if not any(dd[4].get("variant") == "Some" and any(y[0] == "call" and y[3][1] == c.bb for y in walk(strip(X.operand(b, dd[4]["ops"][0])))) for dd in defs if dd[4]["ops"]):
+        # tu64 Err maps to None (the decode may sit in the extractor or in a pure helper it calls)
+        tus = [(hb, c) for hb in [b] + _pure_callee_bodies(F, b) for c in hb.calls if c.name == "tlv::ProtoBuf::get_tu64"]
+        rep.anchor(rid, "get_tu64 on the amount record", len(tus), 1, fn=fn)
+        for hb in [b] + _pure_callee_bodies(F, b):
+            _tu64_rules(F, X, rep, rid, fn, hb, hb is not b)
+
+def _tu64_rules(F, X, rep, rid, fn, b, is_helper):
+    tu = [c for c in b.calls if c.name == "tlv::ProtoBuf::get_tu64"]
+    for c in tu:
+        # the decoder must see the whole field: nothing but type conversions between get(33003).value and get_tu64
+        recv = strip(X.operand(b, c.args[0]))
+        if is_helper:
+            recv = strip(mm.expand_params(F, X, recv, depth=2))
+        bad = [y for y in walk(recv) if y[0] == "call" and y[1] not in ("tlv::SerializedTlvStream::get", "tlv::FromBytes::from_bytes", "bytes::Bytes::from", "bytes::Bytes::copy_from_slice", "std::vec::Vec::as_slice", "bytes::Bytes::from_static")
+               and not y[1].startswith("tlv::") and y[1] not in ("std::convert::TryFrom::try_from", "std::convert::TryInto::try_into")]
+        rep.ob(rid, not bad, fn, "the whole amount field is decoded", where=c.loc, how=show(recv)[:90],
+               detail="" if not bad else "the amount field is passed through %s before decoding: a field longer than 8 bytes is not rejected as malformed" % bad[0][1])
+        # every `None` of the optional amount comes from 'record absent' or 'field malformed'
+        outs = [l for l in b.locals_of_type(r"^std::option::Option<u64>$")]
+        for l in outs:
+            defs = [dd for dd in b.defs.get(l, []) if not dd[2] and dd[3] == "rv" and dd[4]["k"] == "agg"]
+            if not any(dd[4].get("variant") == "Some" and any(y[0] == "call" and y[3][1] == c.bb for y in walk(strip(X.operand(b, dd[4]["ops"][0])))) for dd in defs if dd[4]["ops"]):
+                continue
+            for dd in defs:
+                if dd[4].get("variant") != "None":
                     continue
-                for dd in defs:
-                    if dd[4].get("variant") != "None":
-                        continue
-                    okn = False
-                    for cnd, truth in lib.dominating_conditions(b, dd[0]):
-                        if cnd.kind == "enum":
-                            pe = strip(X.place(b, cnd.place))
-                            if truth == ("None",) and any(y[0] == "call" and y[1] == "tlv::SerializedTlvStream::get" for y in walk(pe)) and not any(y[0] == "call" and y[1] == "tlv::ProtoBuf::get_tu64" for y in walk(pe)):
-                                okn = True
-                            if truth == ("Err",) and all(a2[0] == "call" and a2[3][1] == c.bb for a2 in alts(pe)):
-                                okn = True
-                    rep.ob(rid, okn, fn, "amount is absent only if the record is missing or malformed", where=loc(dd[5]), how="None under get()==None or get_tu64()==Err",
-                           detail="" if okn else "a well-formed amount field can be treated as absent (at %s): a disagreeing amount is then not rejected" % loc(dd[5]))
-        for c in tu:
-            ar = ml.arms_of_result(b, X, c)
-            if ar and ar[1].get("Err") is not None:
-                err = ar[1]["Err"]
-                okt = ar[1].get("Ok")
-                own = b.reach([err]) - (b.reach([okt]) if okt is not None else set())
-                vals = set()
-                for bi2 in own:
-                    for st in b.blocks[bi2]["s"]:
-                        if st["k"] == "assign" and st["rv"]["k"] == "agg" and st["rv"].get("adt") == "std::option::Option" and b.local_ty(st["lhs"]["l"]) == "std::option::Option<u64>":
-                            vals.add(st["rv"]["variant"])
-                ok = vals == {"None"}
-                rep.ob(rid, ok, fn, "malformed amount field => treated as absent", where=c.loc, how=str(sorted(vals)), detail="" if ok else "an over-long amount field yields %s" % sorted(vals))
+                okn = False
+                for cnd, truth in lib.dominating_conditions(b, dd[0]):
+                    if cnd.kind == "enum":
+                        pe = strip(X.place(b, cnd.place))
+                        if truth == ("None",) and any(y[0] == "call" and y[1] == "tlv::SerializedTlvStream::get" for y in walk(pe)) and not any(y[0] == "call" and y[1] == "tlv::ProtoBuf::get_tu64" for y in walk(pe)):
+                            okn = True
+                        if truth == ("Err",) and all(a2[0] == "call" and a2[3][1] == c.bb for a2 in alts(pe)):
+                            okn = True
+                rep.ob(rid, okn, fn, "amount is absent only if the record is missing or malformed", where=loc(dd[5]), how="None under get()==None or get_tu64()==Err",
+                       detail="" if okn else "a well-formed amount field can be treated as absent (at %s): a disagreeing amount is then not rejected" % loc(dd[5]))
+    for c in tu:
+        ar = ml.arms_of_result(b, X, c)
+        if ar and ar[1].get("Err") is not None:
+            err = ar[1]["Err"]
+            okt = ar[1].get("Ok")
+            own = b.reach([err]) - (b.reach([okt]) if okt is not None else set())
+            vals = set()
+            for bi2 in own:
+                for st in b.blocks[bi2]["s"]:
+                    if st["k"] == "assign" and st["rv"]["k"] == "agg" and st["rv"].get("adt") == "std::option::Option" and b.local_ty(st["lhs"]["l"]) == "std::option::Option<u64>":
+                        vals.add(st["rv"]["variant"])
+            ok = vals == {"None"}
+            rep.ob(rid, ok, fn, "malformed amount field => treated as absent", where=c.loc, how=str(sorted(vals)), detail="" if ok else "an over-long amount field yields %s" % sorted(vals))
+
+
+
+def _is_get_result(a):
+    """the record lookup itself (Option<TlvEntry>), not the decoded amount"""
+    return a[0] == "call" and a[1] == "tlv::SerializedTlvStream::get"
+
+
+def _pure_callee_bodies(F, b, depth=2):
+    """bodies of the local synchronous functions called (transitively) from b - extracted helpers"""
+    out = []
+    seen = {b.cdef}
+    todo = [(b, 0)]
+    while todo:
+        g, d = todo.pop()
+        for c in g.calls:
+            n = c.resolved or c.name
+            cb = F.by_cdef.get(n)
+            fi = F.fns.get(n)
+            if cb is None or n in seen or cb.kind not in ("Fn", "AssocFn") or (fi and fi.get("async")) or n.startswith("<"):
+                continue
+            if cb.span.get("f") != b.span.get("f"):
+                continue
+            seen.add(n)
+            out.append(cb)
+            if d + 1 < depth:
+                todo.append((cb, d + 1))
+    return out
 
 
 def _is_inv_amount(e):
